@@ -87,6 +87,93 @@ def long_list(ctx, code, env, sc, dist):
     return vio
 
 
+HIST_FLAGS = [(False, False, "Prince"), (False, True, "Prince")]
+HIST_KINDS = ["flags"] * 5 + ["reweight-terminal"] * 2 + ["add-value", "remove-value", "drop-base", "reweight-base", "retrain", "same"]
+
+
+def history_plan(ctx, name):
+    """The steps of one history on Rules/<name> (impl_next.HistoryGen over the Prince folder: all_lower toggled on the same files,
+    terminal files / Prince/grammar.txt edited in place with the uuid kept, re-trainings, plain repetitions) and one size seed per step."""
+    rs = rulesets.gen_ruleset(ctx.rng, max_bases=3, max_len=3, name=name)
+    hg = impl_next.HistoryGen(ctx.rng, rs, ctx.rng.choice(HIST_FLAGS), kinds=HIST_KINDS, flag_choices=HIST_FLAGS,
+                              gen=lambda nm: rulesets.gen_ruleset(ctx.rng, max_bases=3, max_len=3, name=nm))
+    steps, cur = [], None
+    for k in range(ctx.rng.choice([3, 3, 4])):
+        st = hg.first() if k == 0 else hg.next(cur)
+        cur = st["ruleset"] if st["ruleset"] is not None else cur
+        steps.append(st)
+    return steps, [ctx.rng.randrange(10 ** 6) for _ in steps]
+
+
+def history_refs(sc, steps, sizes):
+    """Main thread only (the in-process loads redirect stdout): per step (files now, all_lower, reference list or None, N or None);
+    the reference is the in-process stream of the same files written to a FRESH directory."""
+    out, cur = [], None
+    for st, seed in zip(steps, sizes):
+        cur = st["ruleset"] if st.get("ruleset") is not None else cur
+        lower = bool(st.get("skip_case"))
+        ref = None
+        try:
+            g = impl_next.load_grammar(cur, sc, False, lower, "Prince")
+            items, _, capped, _ = impl_next.full_stream(g, cap=500, check_heap=False)
+            if not capped and items:
+                ref = [x for it in items for x in collect(g, it["pt"], None)[0]]
+        except Exception:       # noqa: BLE001 - rejected rulesets are not what this oracle is about
+            ref = None
+        out.append((cur, lower, ref, (1 + seed % len(ref)) if ref else None))
+    return out
+
+
+def history_cli(code, env, name, steps, refs):
+    """The history itself: per step the files are (re)written into Rules/<name> of the code copy (what the code under test left
+    there stays) and prince_ling.py runs on it in a fresh process, unbounded and then with --size N.  Returns the outputs."""
+    h = impl_next.History(None, rules_dir=os.path.join(code, "Rules"), name=name)
+    outs = []
+    for st, (_, lower, ref, n) in zip(steps, refs):
+        h.write(st)
+        base = [common.PY, "prince_ling.py", "-r", name] + (["--all_lower"] if lower else [])
+        _, full, _ = common.run_cli(base, code, env, 120)
+        sized = None
+        if n:
+            _, sized, _ = common.run_cli(base + ["-s", str(n)], code, env, 120)
+        outs.append((full, sized))
+    return outs
+
+
+def history_oracle(steps, refs, outs):
+    from collections import Counter
+    vio = []
+    for k, (st, (now, lower, ref, n), (full, sized)) in enumerate(zip(steps, refs, outs)):
+        replay = {"ruleset": now, "all_lower": lower, "n": None, "file": False, "history": steps[:k + 1], "step": k}
+        where = "step %d (%s%s) of a history of prince_ling.py runs on one ruleset directory: " % (k, st.get("edit"), ", --all_lower" if lower else "")
+        lines = full.decode(now["encoding"], "replace").split("\n")
+        if lines and lines[-1] == "":
+            lines = lines[:-1]
+        flang = file_language(now, lower)
+        if flang is not None and sorted(flang) != sorted(lines):
+            cw, cr = Counter(flang), Counter(lines)
+            vio.append({"sig": "C17:missing:file" if (cw - cr) else "C17:duplicated:file",
+                        "what": where + "the unbounded list is not the language of the ruleset FILES as they are now, once each: missing %r, extra %r"
+                                % (list((cw - cr).elements())[:3], list((cr - cw).elements())[:3]), "replay": replay})
+            break
+        if ref is None:
+            continue
+        if lines != ref:
+            vio.append({"sig": "C17:order:history" if sorted(lines) == sorted(ref) else "C17:content:history",
+                        "what": where + "the unbounded list (%d words) is not the list the same files give in a fresh directory (%d words)"
+                                % (len(lines), len(ref)), "replay": replay})
+            break
+        got = sized.decode(now["encoding"], "replace").split("\n")
+        if got and got[-1] == "":
+            got = got[:-1]
+        if got != ref[:n]:
+            vio.append({"sig": "C17:overshoot" if len(got) > n else "C17:content:history",
+                        "what": where + "--size %d produced %d words, not the first %d of the unbounded list" % (n, len(got), n),
+                        "replay": dict(replay, n=n)})
+            break
+    return vio
+
+
 def run(ctx):
     nrs = ctx.scale(24, 120)
     sc = common.scratch()
@@ -210,8 +297,26 @@ def run(ctx):
             if out.strip():
                 data = b"<stdout not empty with -o>" + out
         return job, data
+    # histories: several prince_ling.py runs, one after the other, on the SAME ruleset directory
+    import time
+    plans, t0 = [], time.time()
+    for i in range(ctx.scale(10, 60)):
+        steps, sizes = history_plan(ctx, "PH%d" % i)
+        plans.append(("PH%d" % i, steps, sizes, history_refs(sc, steps, sizes)))
+    dist["history_reference_seconds"] = round(time.time() - t0, 1)
     with ThreadPoolExecutor(max_workers=common.NCPU) as ex:
         results = list(ex.map(do, jobs))
+        houts = list(ex.map(lambda pl: history_cli(code, env, pl[0], pl[1], pl[3]), plans))
+    for (hname, steps, sizes, hrefs), outs in zip(plans, houts):
+        v = history_oracle(steps, hrefs, outs)
+        for x in v:
+            x["replay"]["sizes"] = sizes
+        vio += v
+        dist["histories"] = dist.get("histories", 0) + 1
+        dist["history_cli_runs"] = dist.get("history_cli_runs", 0) + sum(1 + (o[1] is not None) for o in outs)
+        dist.setdefault("history_edits", {})
+        for st in steps:
+            dist["history_edits"][st["edit"]] = dist["history_edits"].get(st["edit"], 0) + 1
     cases = {}
     for (name, lower, n, tofile), data in results:
         dist["cli_runs"] += 1
@@ -273,7 +378,10 @@ def run(ctx):
     rule = ("generated rulesets (Prince/grammar.txt over all their labels, ties), prince_ling.py as a subprocess with and without -o (every second -o file exists already and is longer) and "
             "--all_lower, unbounded and with --size N for N = 1, total, total+3, b-1/b/b+1 around group boundaries and strictly inside "
             "groups of equally probable words; output compared byte-wise with the in-process reference; non-trivial = N strictly inside a "
-            "group; distinct by (ruleset, N); plus one list of 25000+ words to stdout and to -o files (unbounded, --size 4096/4097/8193/10000/10001/20001); the language also recomputed from the ruleset files")
+            "group; distinct by (ruleset, N); plus one list of 25000+ words to stdout and to -o files (unbounded, --size 4096/4097/8193/10000/10001/20001); the language also recomputed from the ruleset files; "
+            "plus histories of 3-4 pairs of prince_ling.py runs (unbounded, --size N; fresh processes) on ONE ruleset directory: --all_lower toggled on "
+            "the same files, terminal files / Prince/grammar.txt edited in place with the uuid kept, re-trainings; after every step the output = the "
+            "language of the files as they are then = the list the same files give from a fresh directory")
     # second tie to the source (translator): name the broken equality if the build lost ExpandGenProofs
     import expand_tie
     corr.append(expand_tie.obligation())
@@ -296,6 +404,11 @@ def replay(ctx, data):
     env["PYTHONPATH"] = code
     if rs == "long-list":
         return long_list(ctx, code, env, common.scratch(), {})
+    if inp.get("history"):
+        steps = inp["history"]
+        sizes = inp.get("sizes") or [0] * len(steps)
+        refs = history_refs(common.scratch(), steps, sizes)
+        return history_oracle(steps, refs, history_cli(code, env, rs["name"], steps, refs))
     rulesets.write_ruleset(rs, os.path.join(code, "Rules", rs["name"]))
     base = [common.PY, "prince_ling.py", "-r", rs["name"]] + (["--all_lower"] if inp.get("all_lower") else [])
     _, full, _ = common.run_cli(base, code, env, 120)
